@@ -169,6 +169,7 @@ class Run(object):
         if st[3] > st[2]:
             raise AssertionError('model bug: soft > miss')
         chk('on_miss-log', lambda: list(self.log), list(st[4]))
+        chk('eq[self]', lambda: c == c, True)
         chk('eq[dict,equal]', lambda: c == dict(want), True)
         chk('eq[dict,equal,reflected]', lambda: dict(want) == c, True)
         chk('ne[dict,equal]', lambda: c != dict(want), False)
